@@ -87,6 +87,13 @@ ProbeEv(e) ==
 OriginalEv(e) ==
   /\ e.ev = "original"
   /\ IF e.threw THEN Verdict(e.rid, "C11", "reject", "path/line lookup threw")
+     ELSE IF e.kind = "disk-probe" THEN
+          \* a file on disk with its own map: the position resolves by the lookup of SourceMapChain in that map
+          LET r == Lookup(e.toks, e.line - 1, e.col - 1)
+              x == IF r.found /\ r.tok.mapped THEN [path |-> r.tok.src, line |-> r.tok.sl + 1, col |-> r.tok.sc + 1]
+                   ELSE [path |-> e.file, line |-> e.line, col |-> e.col]
+          IN IF e.res_path = x.path /\ e.res_line = x.line /\ e.res_col = x.col THEN Verdict(e.rid, "C11", "ok", e.kind)
+             ELSE Verdict(e.rid, "C11", "reject", <<"lookup in an on-disk map", e.file, e.line, e.col, "expected", x, "got", e.res_path, e.res_line, e.res_col>>)
      ELSE IF e.res_path # e.exp_path \/ e.res_line # e.exp_line
           THEN Verdict(e.rid, "C11", "reject", <<"lookup", e.file, e.line, "expected", e.exp_path, e.exp_line, "got", e.res_path, e.res_line>>)
      ELSE Verdict(e.rid, "C11", "ok", e.kind)
